@@ -408,7 +408,7 @@ fn io_histories(g: &mut Gen, st: &mut Stats) -> CaseResult {
     st.eval();
     #[derive(Debug)]
     enum Op { V(Val), K(Keyed) }
-    let n = 1 + g.below(8);
+    let n = if g.chance(6) { 100 + g.below(200) } else { 1 + g.below(8) };
     let ops: Vec<Op> = (0 .. n).map(|_| match g.below(5) {
         0 => Op::K(Keyed(g.u32())),
         1 => Op::V(Val::S("y".repeat(*g.pick(&[0usize, 1, 23, 24, 255, 256, 3000])))),
@@ -476,6 +476,7 @@ fn io_histories(g: &mut Gen, st: &mut Stats) -> CaseResult {
     ensure!(matches!(read_one(&mut r, Kind::S), Ok(None)), "end-error", "the clean end is not stable");
     let (src, _buf) = r.into_parts();
     ensure!(src.consumed() == expected.len(), "bytes-unaccounted", "{} of {} bytes consumed", src.consumed(), expected.len());
+    if n >= 100 { st.class("io-history/100-300 frames") }
     st.class(if confused > 0 { "io-history/with-wrong-type-read" } else if borrowed > 0 { "io-history/with-borrowed-read" } else { "io-history/plain" });
     if ops.len() >= 2 { st.nontrivial(hash_of(&expected)) }
     st.sample(hash_of(&expected), || format!("{} frames / {} bytes, {} borrowed reads, {} wrong-type reads", ops.len(), expected.len(), borrowed, confused));
@@ -500,7 +501,7 @@ pub fn subs() -> Vec<Sub> {
               kind: SubKind::Random { quick: 200_000, thorough: 1_000_000, tape: 1024, f: limits } },
         Sub { prop: "C14", name: "writer-histories", rule: "2-9 calls on one Writer: good values interleaved with refused ones (over max_len, failing Encode, sink failing before the frame) and max_len changes; sink == frames of the successful writes after every step, returned lengths exact, nothing of a refused value leaks into a later frame; non-trivial = a successful write after a refusal",
               kind: SubKind::Random { quick: 150_000, thorough: 3_000_000, tape: 1024, f: writer_histories } },
-        Sub { prop: "C14", name: "io-histories", rule: "1-8 frames through ONE Writer::with_buffer and ONE Reader::with_buffer (scratch buffers arrive non-empty): plain values, context-dependent values via write_with/read_with (context advanced exactly once per value), borrowed reads (&str, &ByteSlice), frames of 0..3000 bytes in any order, reads with the wrong type, into_parts; sink == frames after every write, reader returns exactly the written values then a stable clean end, all bytes consumed",
+        Sub { prop: "C14", name: "io-histories", rule: "1-8 frames (2 % of the cases: 100-300) through ONE Writer::with_buffer and ONE Reader::with_buffer (scratch buffers arrive non-empty): plain values, context-dependent values via write_with/read_with (context advanced exactly once per value), borrowed reads (&str, &ByteSlice), frames of 0..3000 bytes in any order, reads with the wrong type, into_parts; sink == frames after every write, reader returns exactly the written values then a stable clean end, all bytes consumed",
               kind: SubKind::Random { quick: 150_000, thorough: 2_000_000, tape: 2048, f: io_histories } },
         Sub { prop: "C14", name: "writer", rule: "0-5 values through a short-writing sink: bytes == concatenation of 4-byte big-endian length + encoding, write returns the payload length, a value whose Encode fails emits nothing",
               kind: SubKind::Random { quick: 150_000, thorough: 1_000_000, tape: 1024, f: writer_frames } },
